@@ -475,18 +475,6 @@ Theorem C15_exact l docstring indent docs :
 Proof. apply contained_of_lex. intros t. apply C15_lex. Qed.
 
 (* ================= Part 4: whole files, as code parts and comment fragments ================= *)
-(* A generated file seen as a sequence of parts: code the printer writes, and comment fragments
-   (write_comments of some doc list at some indentation; for Python in docstring or `#` form). *)
-Inductive c15_part := CPcode (s : str) | CPdoc (docstring : bool) (indent : nat) (docs : list str).
-Definition c15_part_pieces (l : c15_lang) (p : c15_part) : list piece :=
-  match p with CPcode s => [PLit s] | CPdoc b i ds => c15_tmpl l b i ds end.
-Definition c15_file_pieces (l : c15_lang) (ps : list c15_part) : list piece := flat_map (c15_part_pieces l) ps.
-Definition c15_part_safe (l : c15_lang) (p : c15_part) : bool :=
-  match p with CPcode _ => true | CPdoc b _ ds => forallb (c15_safe l b) ds end.
-(* what C10 (whole-file lexing) has to provide: every code part, read from code, ends in code *)
-Definition c15_code_neutral (l : c15_lang) (p : c15_part) : Prop :=
-  match p with CPcode s => lex_str_gen (c15_cfg l) LCode s = LCode | CPdoc _ _ _ => True end.
-
 Lemma c15_part_lex l p t : c15_code_neutral l p ->
   lex_marked (c15_cfg l) LCode (mark (c15_part_pieces l p) ++ t) =
   if c15_part_safe l p then lex_marked (c15_cfg l) LCode t else None.
@@ -584,3 +572,49 @@ Example C15_sc_nonvacuous : c15_holds C15sc c15_doc_nasty_line. Proof. split; vm
 Example C15_go_nonvacuous : c15_holds C15go c15_doc_nasty_line. Proof. split; vm_compute; reflexivity. Qed.
 Example C15_ts_nonvacuous : c15_holds C15ts c15_doc_nasty_ts. Proof. split; vm_compute; reflexivity. Qed.
 Example C15_py_nonvacuous : c15_holds C15py c15_doc_nasty_py. Proof. split; vm_compute; reflexivity. Qed.
+
+(* ================= Part 6: the statements of Props/C15.v ================= *)
+Lemma C15_contained_ts indent docs : forallb safe_ts docs = true ->
+  c15_contained C15ts LCode (mark (ts_tmpl indent docs)) = true.
+Proof. intros H. now rewrite C15_exact_ts. Qed.
+Lemma C15_contained_kt indent docs : forallb safe_kt docs = true ->
+  c15_contained C15kt LCode (mark (kt_tmpl indent docs)) = true.
+Proof. intros H. now rewrite C15_exact_kt. Qed.
+Lemma C15_contained_sw indent docs : forallb safe_sw docs = true ->
+  c15_contained C15sw LCode (mark (sw_tmpl indent docs)) = true.
+Proof. intros H. now rewrite C15_exact_sw. Qed.
+Lemma C15_contained_sc indent docs : forallb safe_sc docs = true ->
+  c15_contained C15sc LCode (mark (sc_tmpl indent docs)) = true.
+Proof. intros H. now rewrite C15_exact_sc. Qed.
+Lemma C15_contained_go indent docs : forallb safe_go docs = true ->
+  c15_contained C15go LCode (mark (go_tmpl indent docs)) = true.
+Proof. intros H. now rewrite C15_exact_go. Qed.
+Lemma C15_contained_py docstring indent docs : forallb (safe_py docstring) docs = true ->
+  c15_contained C15py LCode (mark (py_tmpl docstring indent docs)) = true.
+Proof. intros H. now rewrite C15_exact_py. Qed.
+
+Lemma C15_necessary l docstring indent docs : forallb (c15_safe l docstring) docs = false ->
+  c15_contained l LCode (mark (c15_tmpl l docstring indent docs)) = false.
+Proof. intros H. now rewrite C15_exact. Qed.
+
+Lemma safe_line_meaning eol d : safe_line eol d = true <-> (forall c, In c d -> eol c = false).
+Proof.
+  unfold safe_line. rewrite forallb_forall. split; intros H c Hc.
+  - apply H in Hc. now destruct (eol c).
+  - now rewrite (H c Hc).
+Qed.
+
+(* `*/` does not occur: no position where the string continues with `*` `/` *)
+Lemma safe_ts_meaning d : safe_ts d = true <-> (forall a b, d <> a ++ [ch_star; ch_slash] ++ b).
+Proof.
+  unfold safe_ts. rewrite negb_true_iff. split.
+  - intros H a b E. subst d. induction a as [|c a IH].
+    + cbn in H. discriminate.
+    + cbn [app contains_sub] in H. apply orb_false_iff in H as [_ H]. now apply IH.
+  - intros H. induction d as [|c r IH]; [reflexivity|].
+    cbn [contains_sub]. apply orb_false_iff. split.
+    + destruct r as [|c2 r2]; cbn [starts_with]; [now rewrite andb_false_r|].
+      rewrite andb_true_r. destruct (ch_star =? c) eqn:E1; [|reflexivity]. destruct (ch_slash =? c2) eqn:E2; [|reflexivity].
+      apply N.eqb_eq in E1, E2. subst. exfalso. exact (H [] r2 eq_refl).
+    + apply IH. intros a b E. apply (H (c :: a) b). cbn [app]. now rewrite E.
+Qed.
